@@ -39,6 +39,20 @@ type c13Case struct {
 	Ct      string `json:"ct"`
 }
 
+type c13Closable struct {
+	r      *strings.Reader
+	closed bool
+}
+
+func (c *c13Closable) Read(p []byte) (int, error) {
+	if c.closed {
+		return 0, errors.New("read after close")
+	}
+	return c.r.Read(p)
+}
+
+func (c *c13Closable) Close() error { c.closed = true; return nil }
+
 func docDigest(d *openapi3.T) string {
 	b, err := json.Marshal(d)
 	if err != nil {
@@ -171,7 +185,9 @@ func c13Run(c *Case) []any {
 		req = httptest.NewRequest(method, target, strings.NewReader(bodyText))
 		if tc.Preset {
 			bt := bodyText
-			req.GetBody = func() (io.ReadCloser, error) { return io.NopCloser(strings.NewReader(bt)), nil }
+			// bodies that really honour Close (a re-opened spool file does): reading after Close fails
+			req.Body = &c13Closable{r: strings.NewReader(bt)}
+			req.GetBody = func() (io.ReadCloser, error) { return &c13Closable{r: strings.NewReader(bt)}, nil }
 		} else {
 			req.GetBody = nil
 		}
